@@ -128,3 +128,47 @@ func HarnessC05Shared() {
 	verifAssert(sameOutcome(o2, solo2), "goroutine-2-outcome-equals-solo")
 	verifReach("end")
 }
+
+// HarnessC05SharedObject: one long-lived (non-recycling) validator over an object schema with every
+// object keyword, shared by two goroutines validating two objects at the same time.
+func HarnessC05SharedObject() {
+	s := &spec.Schema{}
+	switch verifChoose(4) {
+	case 0:
+		s.Properties = map[string]spec.Schema{"a": strSchema("", 1)}
+		s.PatternProperties = map[string]spec.Schema{"^s_": strSchema("", 1), "_n$": schemaOfType("number")}
+		s.AdditionalProperties = &spec.SchemaOrBool{Allows: false}
+	case 1:
+		s.Required = []string{"a"}
+		s.MinProperties = ptrI(1)
+		l := strSchema("", 1)
+		s.AdditionalProperties = &spec.SchemaOrBool{Allows: true, Schema: &l}
+	case 2:
+		inner := spec.Schema{}
+		inner.PatternProperties = map[string]spec.Schema{"^s_": strSchema("", 1)}
+		s.AllOf = []spec.Schema{inner, {}}
+		s.Dependencies = spec.Dependencies{"a": spec.SchemaOrStringArray{Property: []string{"s_x"}}}
+	default:
+		inner := spec.Schema{}
+		inner.PatternProperties = map[string]spec.Schema{"^s_": strSchema("", 1)}
+		inner.AdditionalProperties = &spec.SchemaOrBool{Allows: false}
+		s.AnyOf = []spec.Schema{inner, schemaOfType("string")}
+	}
+	v := NewSchemaValidator(s, nil, "", nil)
+	objs := []interface{}{
+		map[string]interface{}{"a": "x", "s_x": "y"},
+		map[string]interface{}{"s_x": "", "k_n": 1.0},
+		map[string]interface{}{"zz": 1.0},
+	}
+	d1 := objs[verifChoose(3)]
+	d2 := objs[verifChoose(3)]
+	solo1 := runFresh(s, d1, nil)
+	solo2 := runFresh(s, d2, nil)
+	var o1 verifOutcome
+	verifGo(func() { o1 = outcomeOfResult(v.Validate(d1)) })
+	o2 := outcomeOfResult(v.Validate(d2))
+	verifJoin()
+	verifAssert(sameOutcome(o1, solo1), "goroutine-1-outcome-equals-solo")
+	verifAssert(sameOutcome(o2, solo2), "goroutine-2-outcome-equals-solo")
+	verifReach("end")
+}
